@@ -604,6 +604,43 @@ theorem makeMut_clone_invCore {s s2 : State} {i o : Nat} {v v' : Val} (hI : s.In
   · intro x
     rw [hpO, hGowed]
 
+/-- clone branch with a shallow `Clone`: the fresh value holds no handle, so no counter changes;
+the handle is redirected to the fresh allocation and the old handle is dropped -/
+theorem makeMut_clone_shallow_invCore {s s2 : State} {i o : Nat} {v' : Val} (hI : s.InvCore)
+    (hR : s.InvR) (hr : s.roots[i]? = some o)
+    (hvh : v'.held = []) (hvw : v'.weaks = [])
+    (hheap : s2.heap = (s.alloc v').heap)
+    (hroots : s2.roots = s.roots.set i s.heap.length)
+    (hraws : s2.raws = s.raws) (hvals : s2.vals = s.vals)
+    (hwroots : s2.wroots = s.wroots)
+    (hstack : s2.stack = .rcDrop o :: s.stack) : s2.InvCore := by
+  obtain ⟨hR1, hR2⟩ := hR s.heap.length (Nat.le_refl _)
+  have hp : ∀ t, s2.pend t = (if o = t then 1 else 0) + s.pend t := by
+    intro t; simp only [pend_def, hstack, List.map_cons, sumList_cons, Frame.strongTo_rcDrop]
+  have hpW : ∀ t, s2.pendW t = s.pendW t := by
+    intro t; simp only [pendW_def, hstack, List.map_cons, sumList_cons, Frame.weakTo_rcDrop]; omega
+  have hpO : ∀ t, s2.owed t = s.owed t := by
+    intro t; simp only [owed_def, hstack, List.map_cons, sumList_cons, Frame.owes_rcDrop]; omega
+  refine InvCore_alloc (s := s) (v := v') hI hR1 hR2 hheap ?_ ?_ ?_ ?_ ?_
+  · intro t
+    rw [hvh, hp]
+    have h1 := ext_of_roots_set (s := s) (s' := s2) (new := s.heap.length) hr hroots hraws hvals t
+    simp only [List.count_nil]
+    omega
+  · intro t
+    rw [hvw, hpW]
+    have h1 := extW_of_eq (s := s) (s' := s2) hwroots hvals t
+    simp only [List.count_nil]
+    omega
+  · intro x hm
+    rw [hstack] at hm
+    simpa using hm
+  · intro ks hm
+    rw [hstack] at hm
+    simpa using hm
+  · intro x
+    rw [hpO]
+
 /-- steal branch: the value moves to a fresh allocation, the old one is given up to its Weaks -/
 theorem makeMut_steal_invCore {s : State} {i o : Nat} {ob : Obj} {v : Val} (herr : s.err = none)
     (hI : s.InvCore) (hR : s.InvR) (hr : s.roots[i]? = some o) (hc : s.cell o = some ob)
@@ -697,6 +734,24 @@ theorem applyAct_inv_makeMut (s : State) (fh fw : List Nat) (r : Nat) (h : s.Inv
       | some v =>
         dsimp only
         have hval : s.valOf o = some v := by rw [valOf_of_cell hc, hv]
+        by_cases hsh : v.shallow = true
+        · simp only [if_pos hsh]
+          split
+          · intro herr
+            have herr0 : s.err = none := herr
+            exact makeMut_clone_shallow_invCore
+              (v' := { v with vid := s.nextVid, held := [], weaks := [] }) (h herr0) hR
+              (useRoot_some hu).1 rfl rfl rfl rfl rfl rfl rfl rfl
+          · rename_i hs1
+            have hs : ob.strong = .cnt 1 := Decidable.not_not.mp hs1
+            split
+            · intro herr
+              rw [emit_err] at herr
+              have herr1 := giveUp_err_none herr
+              have herr0 : s.err = none := herr1
+              exact makeMut_steal_invCore herr0 (h herr0) hR (useRoot_some hu).1 hc hs hv
+            · exact Inv_emit h _
+        simp only [if_neg hsh]
         split
         · intro herr
           have herr1 : (s.cloneHandles v).err = none := herr
